@@ -13,6 +13,7 @@ import (
 
 	"github.com/anishathalye/porcupine"
 	"github.com/ddddddO/gtree"
+	"github.com/fatih/color"
 
 	"gtverif/gen"
 	"gtverif/model"
@@ -116,7 +117,7 @@ func specResult(root *model.Node, op string) string {
 		return model.Render(f, model.DefaultBranch)
 	case "json.massive":
 		return f.String()
-	case "walk", "iter", "walk.massive":
+	case "walk", "iter", "iter.stored", "walk.massive":
 		var sb strings.Builder
 		for _, r := range model.Rows(f, model.DefaultBranch) {
 			fmt.Fprintf(&sb, "%s|%s|%s|%d|%s|%v\n", r.Row, r.Branch, r.Name, r.Level, r.Path, r.HasChild)
@@ -185,6 +186,9 @@ type liveTree struct {
 	known map[*gtree.Node]bool
 	shape *model.Node // what the harness asked for (for choosing parents), merged as gtree does
 	last  []int       // path of the most recently added node
+	// stored is the sequence value WalkIterFromRoot returned the first time "iter.stored" ran on
+	// this tree; every later "iter.stored" ranges over the same value again
+	stored func(yield func(*gtree.WalkerNode, error) bool)
 }
 
 func pathKey(p []int) string { return fmt.Sprint(p) }
@@ -273,6 +277,24 @@ func (t *liveTree) runOp(op, tmp string) string {
 			return "ERR:" + errStr(o.Err) + fmt.Sprint(o.Panic)
 		}
 		return sb.String()
+	case "iter.stored":
+		if t.stored == nil {
+			t.stored = gtree.WalkIterFromRoot(t.root)
+		}
+		var sb strings.Builder
+		o := Guard(func() error {
+			for wn, err := range t.stored {
+				if err != nil {
+					return err
+				}
+				fmt.Fprintf(&sb, "%s|%s|%s|%d|%s|%v\n", wn.Row(), wn.Branch(), wn.Name(), wn.Level(), wn.Path(), wn.HasChild())
+			}
+			return nil
+		})
+		if o.Panic != nil || o.Err != nil {
+			return "ERR:" + errStr(o.Err) + fmt.Sprint(o.Panic)
+		}
+		return sb.String()
 	case "iter":
 		var sb strings.Builder
 		o := Guard(func() error {
@@ -295,7 +317,7 @@ func (t *liveTree) runOp(op, tmp string) string {
 		w.FailAt = 0
 		w.Short = true
 		o := Guard(func() error {
-			return gtree.OutputFromRoot(w, t.root, gtree.WithDryRun(), gtree.WithEncodeJSON(), gtree.WithFileExtensions([]string{".gz"}))
+			return gtree.OutputFromRoot(w, t.root, gtree.WithDryRun(), gtree.WithEncodeJSON(), gtree.WithFileExtensions(c13Ext))
 		})
 		if o.Panic != nil {
 			return "PANIC"
@@ -423,7 +445,7 @@ func (t *liveTree) runOp(op, tmp string) string {
 			base := runtime.NumGoroutine()
 			rep := captureColorOutput(func() {
 				o = Guard(func() error {
-					return gtree.MkdirFromRoot(t.root, gtree.WithDryRun(), gtree.WithFileExtensions([]string{".gz"}), gtree.WithMassive(context.Background()))
+					return gtree.MkdirFromRoot(t.root, gtree.WithDryRun(), gtree.WithFileExtensions(c13Ext), gtree.WithMassive(context.Background()))
 				})
 				c13Quiet.Quiesce(base)
 			})
@@ -443,11 +465,11 @@ func (t *liveTree) runOp(op, tmp string) string {
 		if firstO.Err != nil {
 			return "ERR:" + errStr(firstO.Err)
 		}
-		return string(firstRep)
+		return sgrSeq.ReplaceAllString(string(firstRep), "")
 	case "dryrun.json":
 		w := mon.NewRecWriter()
 		o := Guard(func() error {
-			return gtree.OutputFromRoot(w, t.root, gtree.WithDryRun(), gtree.WithEncodeJSON(), gtree.WithFileExtensions([]string{".gz"}))
+			return gtree.OutputFromRoot(w, t.root, gtree.WithDryRun(), gtree.WithEncodeJSON(), gtree.WithFileExtensions(c13Ext))
 		})
 		if treeHasInvalid(t.shape) {
 			return rejectedAs(o, false, 0)
@@ -455,12 +477,12 @@ func (t *liveTree) runOp(op, tmp string) string {
 		if o.Panic != nil || o.Err != nil {
 			return "ERR:" + errStr(o.Err) + fmt.Sprint(o.Panic)
 		}
-		return string(w.Bytes())
+		return sgrSeq.ReplaceAllString(string(w.Bytes()), "")
 	case "dryrun":
 		var o Outcome
 		rep := captureColorOutput(func() {
 			o = Guard(func() error {
-				return gtree.MkdirFromRoot(t.root, gtree.WithDryRun(), gtree.WithFileExtensions([]string{".gz"}))
+				return gtree.MkdirFromRoot(t.root, gtree.WithDryRun(), gtree.WithFileExtensions(c13Ext))
 			})
 		})
 		if treeHasInvalid(t.shape) {
@@ -469,7 +491,7 @@ func (t *liveTree) runOp(op, tmp string) string {
 		if o.Panic != nil || o.Err != nil {
 			return "ERR:" + errStr(o.Err) + fmt.Sprint(o.Panic)
 		}
-		return string(rep)
+		return sgrSeq.ReplaceAllString(string(rep), "") // (colour sequences, when switched on, are presentation)
 	case "mkdir":
 		j, err := mon.NewJail(tmp, true)
 		if err != nil {
@@ -478,7 +500,7 @@ func (t *liveTree) runOp(op, tmp string) string {
 		defer j.Remove()
 		before := j.Snap()
 		o := Guard(func() error {
-			return gtree.MkdirFromRoot(t.root, gtree.WithTargetDir(j.Target), gtree.WithFileExtensions([]string{".gz"}))
+			return gtree.MkdirFromRoot(t.root, gtree.WithTargetDir(j.Target), gtree.WithFileExtensions(c13Ext))
 		})
 		if treeHasInvalid(t.shape) {
 			return rejectedAs(o, len(mon.Diff(before, j.Snap())) != 0, 0)
@@ -543,6 +565,7 @@ func runC13(c *Ctx) bool {
 		{[]string{"dryrun.json", "text.b3", "json"}, L - 2}, // dry run with a stray encode option, before and after other outputs
 		{[]string{"dryrun.massive.x5", "walk"}, L - 3},
 		{[]string{"dryfail", "dryrun.json"}, L - 2}, // a failed dry-run report, then dry-run reports
+		{[]string{"iter.stored", "text.b3"}, L - 2},   // one sequence value ranged over again and again while the tree grows
 	}
 	for _, ps := range passes {
 		var hist []string
@@ -633,7 +656,7 @@ func runC13(c *Ctx) bool {
 	return runC13Concurrent(c)
 }
 
-var c13Ops = []string{"text", "text.b3", "text.b6", "walk", "iter", "json", "walk.massive", "text.massive", "json.massive", "walkfail", "iterbreak", "textfail", "jsonfail", "dryrun", "mkdir", "verify", "mkdirfail", "verifyfail", "dryrun.json", "dryrun.massive.x5", "dryfail"}
+var c13Ops = []string{"text", "text.b3", "text.b6", "walk", "iter", "json", "walk.massive", "text.massive", "json.massive", "walkfail", "iterbreak", "textfail", "jsonfail", "dryrun", "mkdir", "verify", "mkdirfail", "verifyfail", "dryrun.json", "dryrun.massive.x5", "dryfail", "iter.stored"}
 var c13Names = []string{"a", "b", "c", "A", "B", "x.gz", "d e", "日本", "x/y", "p/q"} // the last two are not path elements: mkdir, verify and dry run must reject the tree, whatever happened to it before
 
 const c13Rejected = "REJECTED: invalid name, nothing created or reported"
@@ -706,6 +729,15 @@ func randHistory(r *gen.Rand, n, maxTrees int) []string {
 // evalC13History executes a sequential history on fresh trees, records it and checks every
 // tree's partition with porcupine.
 func evalC13History(c *Ctx, cs *Case, h []string) {
+	if cs.Idx%4 == 0 {
+		// a quarter of the sequential histories run with colour switched on, as on a terminal: the
+		// dry-run reports are then coloured (compared after removing the sequences); nothing else,
+		// before or after, may be
+		old := color.NoColor
+		color.NoColor = false
+		defer func() { color.NoColor = old }()
+		c.Count("histories_with_colour_on", 1)
+	}
 	var clock int64
 	var trees []*liveTree
 	parts := map[int][]porcupine.Operation{}
@@ -943,8 +975,15 @@ func evalC13Concurrent(c *Ctx, cs *Case) {
 					}
 					want := model.Render(model.Merge(f), model.DefaultBranch)
 					var o Outcome
-					kind := r.Intn(5)
+					kind := r.Intn(6)
 					switch kind {
+					case 5:
+						// a dry-run report written to the caller's own writer: the per-root counts must be
+						// this call's, whatever other dry runs are going on
+						o = OutputMD(doc, gtree.WithDryRun(), gtree.WithFileExtensions([]string{".gz", "b"}))
+						if o.Err == nil && string(o.Out) == model.DryRunReport(model.Merge(f), model.DefaultBranch, []string{".gz", "b"}) {
+							o.Out = []byte(want)
+						}
 					case 3, 4:
 						// massive JSON / YAML: overlapping massive calls with the same encoding must not mix
 						enc, dec := gtree.WithEncodeJSON(), DecodeJSONLines
@@ -994,6 +1033,44 @@ func evalC13Concurrent(c *Ctx, cs *Case) {
 		}(g)
 	}
 	wg.Wait()
+	// a burst of dry-run reports at the same moment from all goroutines, each of its own document:
+	// every report must carry its own tree and its own counts
+	var bw sync.WaitGroup
+	startBurst := make(chan struct{})
+	for g := 0; g < G; g++ {
+		bw.Add(1)
+		go func(g int) {
+			defer bw.Done()
+			r := gen.New(cs.Seed, 6, uint64(g))
+			f := gen.RandForest(r, 30, 4, []int{gen.ClassPlain, gen.ClassExt}, 10)
+			c08Safe(f) // names a dry run accepts
+			sp := gen.RandSpelling(r)
+			if !gen.CanHeading(f) {
+				sp.Heading = 0
+			}
+			doc := gen.Spell(f, sp)
+			want := model.DryRunReport(model.Merge(f), model.DefaultBranch, []string{".gz", "b"})
+			<-startBurst
+			for k := 0; k < 12; k++ {
+				var o Outcome
+				if k%2 == 0 {
+					o = OutputMD(doc, gtree.WithDryRun(), gtree.WithFileExtensions([]string{".gz", "b"}))
+				} else {
+					o = OutputMD(doc, gtree.WithDryRun(), gtree.WithFileExtensions([]string{".gz", "b"}), gtree.WithNoUseIterOfSimpleOutput())
+				}
+				c.Count("concurrent_dry_run_reports", 1)
+				if o.Panic != nil || o.Err != nil || string(o.Out) != want {
+					select {
+					case mdViol <- fmt.Sprintf("dry-run burst: doc=%q err=%v panic=%v report=%q want=%q", doc, o.Err, o.Panic, trunc(string(o.Out), 300), trunc(want, 300)):
+					default:
+					}
+					return
+				}
+			}
+		}(g)
+	}
+	close(startBurst)
+	bw.Wait()
 	close(ch)
 	for h := range ch {
 		parts[h.t.id] = append(parts[h.t.id], h.ops...)
@@ -1011,3 +1088,7 @@ func evalC13Concurrent(c *Ctx, cs *Case) {
 	c.SetAdd("goroutines", strconv.Itoa(G))
 	c13CheckParts(c, cs, parts, []string{"concurrent", "seed=" + strconv.FormatUint(cs.Seed, 10), "G=" + strconv.Itoa(G), "handoff=" + strconv.FormatBool(withHandoff)}, nOps)
 }
+
+// c13Ext is ONE extension slice (with a repeated entry) handed to every call of this check, as a
+// caller who prepared its options once would do; the specification reads {".gz"}.
+var c13Ext = []string{".gz", ".md", ".gz"}
